@@ -35,6 +35,10 @@ def run(model, rep, tier):
     A_(interp_arguments_rule, model, rep)
 
 
+def is_name_(n, name):
+    return name is not None and isinstance(n, ast.Name) and n.id == name
+
+
 def r1(model, rep):
     rel = model.rel("components")
     init = model.own_method("_Interp1d", "__init__")
@@ -57,6 +61,46 @@ def r1(model, rep):
         ok = False
         rep.violation("R1", "components._Interp1d._interp", "%s:%d" % (rel, itp.lineno), "the 1-D lookup is `%s`, expected np.interp(|x|, axis, values) without left/right/period" % (ast.unparse(rets[0].value) if rets else "?"), "interp1d lookup")
     rep.instance("R1", "components._Interp1d", "%s:%d" % (rel, init.lineno), ok)
+    # np.interp needs a rising abscissa.  The class takes magnitudes of the axis, so "rising" must hold for the magnitudes: either the
+    # validator tests the magnitudes, or the class puts axis and values into rising order itself (one permutation for both).
+    ok = False
+    chk = model.func("components", "_check_interp") if hasattr(model, "func") else None
+    if chk is None:
+        chk = next((n for n in model.tree["components"].body if isinstance(n, ast.FunctionDef) and n.name == "_check_interp"), None)
+    if chk is None:
+        raise AnalysisError("_check_interp not found")
+    for c in ast.walk(chk):
+        if isinstance(c, ast.Call) and ast.unparse(c.func) in ("np.diff", "numpy.diff") and c.args:
+            a = c.args[0]
+            if isinstance(a, ast.Call) and ast.unparse(a.func) in ("np.abs", "abs", "np.absolute", "np.fabs") and "'io'" in ast.unparse(a):
+                ok = True
+    srt = [n for n in ast.walk(init) if isinstance(n, ast.Call) and ast.unparse(n.func) in ("np.argsort", "numpy.argsort")]
+    mentions_sort = any("sort" in ast.unparse(n.func) for n in ast.walk(init) if isinstance(n, ast.Call))
+    if not ok and srt:
+        perm = None
+        for x in init.body:
+            if isinstance(x, ast.Assign) and x.value in srt and isinstance(x.targets[0], ast.Name) and ast.unparse(x.value.args[0]) == "self._x" and not x.value.keywords:
+                perm = x.targets[0].id
+        taken = {}
+        for x in init.body:
+            if isinstance(x, ast.Assign):
+                tg, vl = x.targets[0], x.value
+                pairs = list(zip(tg.elts, vl.elts)) if isinstance(tg, ast.Tuple) and isinstance(vl, ast.Tuple) and len(tg.elts) == len(vl.elts) else [(tg, vl)]
+                for t, v in pairs:
+                    if isinstance(v, ast.Subscript) and is_name_(v.slice, perm) and ast.unparse(t) == ast.unparse(v.value):
+                        taken[ast.unparse(t)] = True
+        if perm and taken.get("self._x") and taken.get("self._fx"):
+            ok = True
+        else:
+            raise AnalysisError("_Interp1d.__init__ sorts something, but not axis and values by one permutation of the axis magnitudes: not readable")
+    elif not ok and mentions_sort:
+        raise AnalysisError("_Interp1d.__init__ sorts in a way the rule does not read")
+    if not ok:
+        rep.violation("R1", "components._Interp1d.__init__", "%s:%d" % (rel, init.lineno),
+                      "np.interp is given the magnitudes of the io axis, but rising order is only checked on the signed values and the class does not sort: "
+                      "an axis written with negative signs (-0.9, -0.5, -0.1) passes the check and is falling by magnitude, so the lookup does not return the tabulated values",
+                      "interp1d abscissa not rising by magnitude")
+    rep.instance("R1", "components._Interp1d abscissa rises by magnitude", "%s:%d" % (rel, init.lineno), ok)
 
 
 class I2Hooks:
